@@ -478,6 +478,38 @@ example (cfa : Cfa) (col : Chan → Rat) (ch : Chan) :
       (colourMosaic (Generated.C16.recompPlane cfa) col) ch 2 2 = col ch :=
   malvar_uniform_colour cfa 5 5 col ch 2 2 (by norm_num) (by norm_num) (by norm_num) (by norm_num)
 
+/-- the mosaic of a scene whose luminance is an affine function `α·row + β·column` of the position and whose colour
+differences are constant (`col`): each site holds the luminance plus the level of the colour that lives there -/
+def rampMosaic (rt : Site → Plane) (α β : Rat) (col : Chan → Rat) : ℕ → ℕ → Rat :=
+  fun R C => α * R + β * C + col (rt (siteOfParity R C)).chan
+
+/-- Malvar demosaicking is EXACT on affine luminance with constant colour differences (what its gradient correction is
+designed for): for every slope `(α, β)`, every colour offsets `(r, g, b)`, every image size and both layouts, every channel
+of the demosaicked image equals the scene `α·row + β·column + colour` at every sample at least two samples from the border.
+With `α = β = 0` this is `malvar_uniform_colour`.  (Border: `reflect` breaks the pattern, nothing claimed.) -/
+theorem malvar_affine_exact (cfa : Cfa) (m n : ℕ) (α β : Rat) (col : Chan → Rat) (ch : Chan) (R C : ℕ)
+    (hRm : R + 4 < m) (hCn : C + 4 < n) :
+    malvar Generated.C16.siteSlices (Generated.C16.malvarSrc cfa) m n
+      (rampMosaic (Generated.C16.recompPlane cfa) α β col) ch (R + 2) (C + 2)
+      = α * (R + 2 : ℕ) + β * (C + 2 : ℕ) + col ch := by
+  unfold malvar
+  rw [siteAt_eq]
+  simp only [convolve5_interior _ _ _ _ _ _ _ hRm hCn]
+  have e : ∀ (x a : ℕ), (x + a) % 2 = (x % 2 + a % 2) % 2 := fun x a => Nat.add_mod x a 2
+  have hR : R % 2 = 0 ∨ R % 2 = 1 := by omega
+  have hC : C % 2 = 0 ∨ C % 2 = 1 := by omega
+  to_model
+  rcases hR with hR | hR <;> rcases hC with hC | hC <;> cases cfa <;> cases ch <;>
+    simp [rampMosaic, e, hR, hC, siteOfParity, Model.C16.malvarSrc, Model.C16.srcKernel, Model.C16.recompPlane, Plane.chan,
+      Num.sumTo, kernelAt, Model.C16.kernelGAtRB, Model.C16.kernelRAtGInRB, Model.C16.kernelRAtGInBR,
+      Model.C16.kernelRAtBInBB, Model.C16.malvarDivisor, Num.ofInt] <;> ring
+
+/-- non-vacuity: the centre of a 5 × 5 mosaic -/
+example (cfa : Cfa) (α β : Rat) (col : Chan → Rat) (ch : Chan) :
+    malvar Generated.C16.siteSlices (Generated.C16.malvarSrc cfa) 5 5
+      (rampMosaic (Generated.C16.recompPlane cfa) α β col) ch 2 2 = α * (2 : ℕ) + β * (2 : ℕ) + col ch :=
+  malvar_affine_exact cfa 5 5 α β col ch 0 0 (by norm_num) (by norm_num)
+
 /-- safe white balance (UNIT nominal gains only — with other gains `safe` promises nothing and nothing is claimed):
 after dividing the gains by the generated limiting ratio, a plane scaled with unit
 nominal gain does not exceed its saturation level — for every list of inspected planes `(max, saturation)`;
